@@ -59,26 +59,32 @@ def _args():
     def block_ok(cls, fmt):
         def chk(o):
             w = _w(o._write)
-            assert o.nBytes == len(w), f"nBytes {o.nBytes} != {len(w)} written"
+            if not (o.nBytes == len(w)):
+                raise AssertionError(f"nBytes {o.nBytes} != {len(w)} written")
             s = io.BytesIO(w + b"\xEE" * 4)
             cls._build(s, getattr(o.format, "value", o.format))
-            assert s.tell() == len(w), f"decode consumed {s.tell()} of {len(w)}"
+            if not (s.tell() == len(w)):
+                raise AssertionError(f"decode consumed {s.tell()} of {len(w)}")
         return chk
 
     def item_ok(cls):
         def chk(o):
             w = _w(o._write)
-            assert o.nBytes == len(w), f"nBytes {o.nBytes} != {len(w)} written"
+            if not (o.nBytes == len(w)):
+                raise AssertionError(f"nBytes {o.nBytes} != {len(w)} written")
             s = io.BytesIO(w + b"\xEE" * 4)
             cls._build(s)
-            assert s.tell() == len(w), f"decode consumed {s.tell()} of {len(w)}"
+            if not (s.tell() == len(w)):
+                raise AssertionError(f"decode consumed {s.tell()} of {len(w)}")
         return chk
 
     def vp_ok(o):
         w = o.write()
-        assert len(w) == 16 == CameraViewPort.nBytes, f"viewport wrote {len(w)} bytes"
+        if not (len(w) == 16 == CameraViewPort.nBytes):
+            raise AssertionError(f"viewport wrote {len(w)} bytes")
         back = CameraViewPort.bread(io.BytesIO(w))
-        assert back.write() == w
+        if not (back.write() == w):
+            raise AssertionError(f"check failed: back.write() == w")
 
     def d3(**kw):
         from basictdf.tdfData3D import Data3dBlockFormat, Flags
@@ -130,10 +136,12 @@ def _args():
 
     def bts_ok(o):
         w = _w(o._write)
-        assert o.nBytes == len(w), f"nBytes {o.nBytes} != {len(w)} written"
+        if not (o.nBytes == len(w)):
+            raise AssertionError(f"nBytes {o.nBytes} != {len(w)} written")
         s = io.BytesIO(w)
         BTSCameraData._build(s)
-        assert s.tell() == len(w)
+        if not (s.tell() == len(w)):
+            raise AssertionError(f"check failed: s.tell() == len(w)")
 
     T = {}
     for name, shape in (("volume", (3,)), ("rotationMatrix", (3, 3)), ("translationVector", (3,))):
@@ -342,10 +350,12 @@ def run_coupled(ctx, case):
             b = io.BytesIO()
             tr._write(b)
             w = b.getvalue()
-            assert tr.nBytes == len(w), f"nBytes {tr.nBytes} != {len(w)} written"
+            if not (tr.nBytes == len(w)):
+                raise AssertionError(f"nBytes {tr.nBytes} != {len(w)} written")
             s = io.BytesIO(w + b"\xEE" * 4)
             ForceTorqueTrack._build(s, tr.nFrames)
-            assert s.tell() == len(w), f"decode consumed {s.tell()} of {len(w)}"
+            if not (s.tell() == len(w)):
+                raise AssertionError(f"decode consumed {s.tell()} of {len(w)}")
         except Exception as e:  # noqa
             ctx.fail("ForceTorqueTrack/accepted-object-missized", f"ForceTorqueTrack: {desc} accepted but mis-sized: {type(e).__name__}: {e}")
     ctx.case(case, not required, labels=["coupled", "accepted" if exc is None else "refused"])
@@ -392,10 +402,12 @@ def run_events(ctx, case):
             b = io.BytesIO()
             ev._write(b)
             w = b.getvalue()
-            assert ev.nBytes == len(w), f"nBytes {ev.nBytes} != {len(w)} written"
+            if not (ev.nBytes == len(w)):
+                raise AssertionError(f"nBytes {ev.nBytes} != {len(w)} written")
             s = io.BytesIO(w + b"\xEE" * 4)
             Event._build(s)
-            assert s.tell() == len(w)
+            if not (s.tell() == len(w)):
+                raise AssertionError(f"check failed: s.tell() == len(w)")
         except Exception as e:  # noqa
             ctx.fail("Event/accepted-object-missized", f"Event({case['values']}, {kind.name}) accepted but mis-sized: {type(e).__name__}: {e}")
     ctx.case(case, not should_accept or not isinstance(v, np.ndarray), labels=["event", "accepted" if exc is None else "refused"])
@@ -409,3 +421,5 @@ SUBS = [
     Sub("events", run_events, kind="enum", enumerate=enum_events, shards=(1, 1),
         rule="Event: 17 value forms x both kinds; finite, enumerated completely"),
 ]
+from ..core import optimised_child_sub  # noqa: E402
+SUBS.append(optimised_child_sub("C19", ["shape-lattice", "coupled-arrays", "events"]))
